@@ -63,9 +63,12 @@ def bad_value(s, rng):
     return None
 
 
+BAD_SHARE = [0.5]
+
+
 def value_for(s, rng, defs):
     """(value, aimed) with aimed in good/bad; None when nothing sensible"""
-    if rng.random() < 0.5:
+    if rng.random() < BAD_SHARE[0]:
         v = bad_value(s, rng)
         if v is not None:
             return v, "bad"
@@ -166,8 +169,9 @@ def body_and_response_schemas(doc):
     return out
 
 
-def decorate(doc, rng, density=0.45, simple_examples=False):
+def decorate(doc, rng, density=0.45, simple_examples=False, bad_share=0.5):
     """adds shaped definitions / bodies / responses, then defaults and examples at every kind of place; returns statistics"""
+    BAD_SHARE[0] = bad_share
     defs = doc.setdefault("definitions", {})
     stats = {"default": 0, "example": 0, "aimed_bad": 0, "response_examples": 0}
     for _ in range(rng.randint(1, 3)):
